@@ -65,7 +65,7 @@ OPT_VALUES = {
     "cores": [1, 2, 4, 16, None], "memory": ["1g", "8g", "500m", "4GB", "16000", "7g", None, 0],
     "walltime": ["00:10:00", "12:00:00", None], "queue": ["short", "normal,long", None], "account": ["proj1", None],
     "constraint": ["avx2", None], "qos": ["high", None], "mail_type": ["END", None], "mail_user": ["a@b.c", None],
-    "gres": ["gpu:1", None], "nodes": [1, 2, None], "bogus_option": ["x", 3], "threads": [2],
+    "gres": ["gpu:1", None], "nodes": [1, 2, None], "bogus_option": ["x", 3, None], "threads": [2, None],
 }
 
 
@@ -118,14 +118,14 @@ def strategy(tier):
     return _case(tier)
 
 
-def run_script(script, flavour, stdout_path, stderr_path, jobid):
+def run_script(script, flavour, stdout_path, stderr_path, jobid, append=False):
     """Execute a submitted script the way the scheduler would: foreign cwd, its own redirections."""
     tmp = tempfile.mkdtemp(prefix="gwfexec", dir="/dev/shm" if os.path.isdir("/dev/shm") else None)
     try:
         sp = os.path.join(tmp, "job.sh")
         with open(sp, "w") as f:
             f.write(script)
-        mode = "ab" if flavour == "sge" else "wb"
+        mode = "ab" if flavour == "sge" or append else "wb"
         out_f = open(stdout_path, mode) if stdout_path else subprocess.DEVNULL
         if stderr_path:
             err_f = open(stderr_path, mode)
@@ -382,6 +382,31 @@ def run_case(case):
         else:
             if so != b"planted T.stdout\n" and so is not None:
                 viols.append(Violation({"kind": "log-written-in-mode-none"}, repr(so)))
+        # ---- a later run of the same target: `gwf logs` must show the latest run's output
+        if not viols and mode == "full":
+            hist.set_job_state(proj.sim, job, "completed")
+            job.in_queue = False
+            job.in_acct = False
+            t["spec"] = case["second_spec"]
+            proj.write_desc(desc)
+            r5 = proj.gwf(["run", "T"])
+            job2 = proj.sim.latest("T")
+            if r5.code != 0 or job2 is job:
+                viols.append(Violation({"kind": "second-run-failed"}, r5.brief()))
+            else:
+                lsf_append = b == "lsf" and ("-oo" not in job2.directives or "-eo" not in job2.directives)
+                run_script(job2.script, b, job2.stdout_path, job2.stderr_path, job2.id, append=lsf_append)
+                rrc2, rout2, rerr2 = reference(case["second_spec"], wd)
+                lo = proj.gwf(["logs", "--no-pager", "T"])
+                le = proj.gwf(["logs", "--no-pager", "-e", "T"])
+                got_o, got_e = lo.out.encode().rstrip(b"\n"), le.out.encode().rstrip(b"\n")
+                want_o, want_e = rout2.rstrip(b"\n"), rerr2.rstrip(b"\n")
+                exact = b != "sge"  # SGE appends to existing output files by design of `-o`
+                if (got_o != want_o or got_e != want_e) if exact else not (got_o.endswith(want_o) and got_e.endswith(want_e)):
+                    viols.append(Violation({"kind": "logs-not-latest-run", "backend": b},
+                                           f"after a second run `gwf logs` shows {got_o!r} / {got_e!r}; the latest run printed "
+                                           f"{want_o!r} / {want_e!r}"))
+                labels.add("second-run")
     srcs = [case["wf_defaults"], case["options"]] + ([case["template_options"]] if case["via"] == "template" else [])
     disagree = any(k in a and k in b2 and a[k] != b2[k] for i, a in enumerate(srcs) for b2 in srcs[i + 1:] for k in a)
     if case["mid_fail"]:
